@@ -7,7 +7,7 @@ in : `run <prog> <args>`   prog = `(prog (<T>…) <stmt>…)`, args = `(args <o>
         stmt = `(asg x e)` | `(if t (<stmt>…) (<stmt>…))` | `(ret e)` | `(unp (x…) e)` | `(for x e (<stmt>…))` | `(aug x e)`
         expr = `(lit o)` | `(var x)` | `(tup e…)` | `(lst e…)` | `(sub e i)` | `(ite t a b)` | `(call f e…)` | `(add a b)`
         test = `(isnone x)` | `(notnone x)` | `(not t)`
-     `cls <skeleton tokens>`   (Spec/D01.lean)     `call <shared> <seqForm> <valSeq>`     `conv <isListOrTuple> <seqForm> <valSeq>`     `subl <isSub> <assignedInLoop>`
+     `cls <skeleton tokens>`   (Spec/D01.lean)     `call <shared> <seqForm> <valSeq>`     `conv <isListOrTuple> <seqForm> <valSeq>`     `subl <isSub> <assignedInLoop>`     `comp <inLoop> <staleParent> <joinReset>`
      `mem <o> <T>`
 out: run: `I <path>=<T>;… | F <flags> | X <path>=<o>;… | O <outcome> | A <argsOk>`  (path = indices joined by `.`, root first)
      cls: the classes, comma separated, `-` if none;   mem: `1`/`0`
@@ -175,6 +175,8 @@ def handle (line : String) : String :=
     if D01_setDisplayOrder (a == "1") (l == "1") (r == "1") then "setDisplayOrder" else "-"
   | some [.atom "subl", .atom a, .atom l] =>
     if D01_loopCarriedSubscript (a == "1") (l == "1") then "loopCarriedSubscript" else "-"
+  | some [.atom "comp", .atom a, .atom b, .atom c] =>
+    (match d01CompositeClasses (a == "1") (b == "1") (c == "1") with | [] => "-" | cs => ",".intercalate cs)
   | some [.atom "mem", o, t] =>
     match o.toObj, t.toTy with
     | some o, some t => b2s (mem liveTable o t)
